@@ -56,7 +56,12 @@ impl ZodBindingsGenerator {
 
         let variants: Vec<String> = field_contexts
             .iter()
-            .map(|field| format!("\"{}\"", field.serialized_name))
+            // A JSON string literal is a valid TypeScript string literal (quotes, backslashes
+            // and control characters in a #[serde(rename = "...")] value are escaped)
+            .map(|field| {
+                serde_json::to_string(&field.serialized_name)
+                    .unwrap_or_else(|_| format!("\"{}\"", field.serialized_name))
+            })
             .collect();
 
         let enum_values = variants.join(", ");
